@@ -282,9 +282,9 @@ D14B_UNIVERSE = [
 # mutated strings may contain any key path: their SmartLookupDicts have no scalar or list inside, so that
 # no path can run through a non-container (the D14b family stays confined to its dedicated cases)
 MUT_UNIVERSE = [
-    ("", PLAIN1), ("a", PLAIN1), ("b", PLAIN2), ("ab", PLAIN2), ("abc", None), ("ABC", {}),
-    ("a b", SmartLookupDict({"n": {"m": {}}, "k": {}})), (None, SmartLookupDict()), ("x'y\"z\\", PLAIN1),
-    ("and", PLAIN2), ("or", None), ("not", PLAIN1), ("x", PLAIN2), ("bc", SmartLookupDict({"k": {"v1": {}}})),
+    ("a", PLAIN1), ("b", PLAIN2), ("abc", None), ("a b", SmartLookupDict({"n": {"m": {}}, "k": {}})),
+    (None, SmartLookupDict()), ("x'y\"z\\", PLAIN1), ("and", PLAIN2), ("or", {}), ("not", PLAIN1),
+    ("bc", SmartLookupDict({"k": {"v1": {}}})),
 ]
 UNIVERSES = {"main": UNIVERSE, "d14b": D14B_UNIVERSE, "mut": MUT_UNIVERSE}
 
@@ -581,18 +581,18 @@ class C18(Check):
             seeds.append(("atom", a[1], a[2]))
         srng = rng
         pool = list(trees(ALPHABET[:6] + ALPHABET[11:13] + ALPHABET[19:24:2] + ALPHABET[31:33], 3))
-        for t in srng.sample(pool, min(len(pool), 60 if quick else 300)):
+        for t in srng.sample(pool, min(len(pool), 60 if quick else 150)):
             seeds.append(t)
         for t in trees(SMALL, 4):
             if srng.random() < (0.15 if quick else 1.0):
                 seeds.append(t)
-        for _ in range(40 if quick else 400):
+        for _ in range(40 if quick else 150):
             seeds.append(random_tree(srng, srng.randrange(3, 8), ALPHABET))
         seen = set()
         for t in seeds:
             for m in (("min", "glued") if quick else ("min", "glued", "ws", "rand")):
                 toks = print_expr(t, m, rng)
-                for kind, mt in mutations(toks, rng, 40 if quick else None):
+                for kind, mt in mutations(toks, rng, 40 if quick else 60):
                     s = text(mt)
                     if s in seen:
                         continue
